@@ -215,14 +215,14 @@ def src_search(ctx):
     by_refs = {len(n[2]): i for i, n in enumerate(dag)}
     for pt in found.get('bitsOverflow') or []:
         if pt['used'] <= 1023 and 1 <= pt['length'] <= 1100:
-            history(ctx, dag, cells, pt['used'], 0, 'src', ops=['b:' + '1' * pt['length']])
+            history(ctx, dag, cells, pt['used'], 0, 0, ops=['b:' + '1' * pt['length']])
     for pt in found.get('refsFull') or []:
         if pt['refs'] <= 4:
-            history(ctx, dag, cells, 0, pt['refs'], 'src', ops=['r:0'])
+            history(ctx, dag, cells, 0, pt['refs'], 0, ops=['r:0'])
     for name, mk in (('cellRefsOverflow', lambda k: f'cell:{k}'), ('sliceRefsOverflow', lambda k: f'sl:{k}:0:0')):
         for pt in found.get(name) or []:
             if pt['refs'] <= 4 and pt['more'] in by_refs and len(dag[by_refs[pt['more']]][1]) < 1023:
-                history(ctx, dag, cells, 0, pt['refs'], 'src', ops=[mk(by_refs[pt['more']])])
+                history(ctx, dag, cells, 0, pt['refs'], 0, ops=[mk(by_refs[pt['more']])])
     for pt in found.get('bitsUnderflow') or []:
         if pt['remaining'] <= 1023 and 1 <= pt['length'] <= 1023:
             for kind in ('lb', 'lu', 'sk'):
@@ -251,7 +251,7 @@ def src_search_methods(ctx):
             if (ub, ur, tok) in done or len(done) > 60:
                 continue
             done.add((ub, ur, tok))
-            history(ctx, dag, cells, ub, ur, 'src', ops=[tok])
+            history(ctx, dag, cells, ub, ur, 0, ops=[tok])
         if len(ctx.failures) > n0:
             return True
     reads = set()
